@@ -691,8 +691,10 @@ func (g *c14Gen) stmt() {
 		g.arrayStmt()
 	case k < 35:
 		g.lambdaStmt()
-	case k < 38:
+	case k < 37:
 		g.shadowStmt()
+	case k < 39:
+		g.keyedLitStmt()
 	default:
 		v := g.pickVar("int", true)
 		if v != nil {
@@ -920,6 +922,295 @@ func (g *c14Gen) shadowStmt() {
 	read()
 	if typ == "int" {
 		x.bound = math.Max(x.bound, c14M)
+	}
+}
+
+// ---------- keyed composite literals ----------
+
+// c14KeyText writes a constant index the ways a program does: a literal, an iota constant, an expression of constants
+func (g *c14Gen) c14KeyText(i int) string {
+	if g.r.chance(55) {
+		return fmt.Sprint(i)
+	}
+	switch {
+	case i <= 3 && g.r.bool():
+		return fmt.Sprintf("K%d", i)
+	case i == 3:
+		return "K1 + K2"
+	case i == 4:
+		return pick(g.r, []string{"2 * K2", "KN - 2", "K1 + K3"})
+	case i == 5:
+		return pick(g.r, []string{"KN - 1", "K2 + K3"})
+	case i == 6:
+		return pick(g.r, []string{"KN", "2 * K3"})
+	case i >= 7:
+		return fmt.Sprintf("KN + %d", i-6)
+	}
+	return fmt.Sprint(i)
+}
+
+// keyedLayout: the elements of an array or slice literal as they are written: runs of consecutive indices in random
+// order; the first element of a run carries its index (except a run that starts the literal at 0, sometimes), the
+// others continue from the previous one. Returns the written keys ("" = none), the index of each element and the
+// length (largest index + 1, wherever in the literal it is written).
+func (g *c14Gen) keyedLayout(maxIdx int) (keys []string, idx []int, length int) {
+	used := map[int]bool{}
+	type run struct{ start, n int }
+	var runs []run
+	for tries := 0; tries < 12 && len(runs) < 1+g.r.intn(4); tries++ {
+		st, n := g.r.intn(maxIdx+1), 1+g.r.intn(3)
+		ok := true
+		for i := st; i < st+n; i++ {
+			if used[i] || i > maxIdx {
+				ok = false
+			}
+		}
+		if !ok {
+			continue
+		}
+		for i := st; i < st+n; i++ {
+			used[i] = true
+		}
+		runs = append(runs, run{st, n})
+	}
+	if len(runs) == 0 {
+		runs = []run{{g.r.intn(maxIdx + 1), 1}}
+	}
+	for i := len(runs) - 1; i > 0; i-- { // random order of the runs
+		j := g.r.intn(i + 1)
+		runs[i], runs[j] = runs[j], runs[i]
+	}
+	prev := -1
+	for _, rn := range runs {
+		for i := rn.start; i < rn.start+rn.n; i++ {
+			k := ""
+			if i != prev+1 || (i == rn.start && g.r.chance(35)) {
+				k = g.c14KeyText(i)
+			}
+			keys = append(keys, k)
+			idx = append(idx, i)
+			prev = i
+			if i+1 > length {
+				length = i + 1
+			}
+		}
+	}
+	return
+}
+
+func c14JoinKeyed(keys, vals []string) string {
+	var es []string
+	for i := range keys {
+		if keys[i] == "" {
+			es = append(es, vals[i])
+		} else {
+			es = append(es, keys[i]+": "+vals[i])
+		}
+	}
+	return strings.Join(es, ", ")
+}
+
+// fields of S / T in random order, a random subset (the others are zero)
+func (g *c14Gen) keyedFields(typ string) string {
+	var fs []string
+	if typ == "T" {
+		fs = []string{"p: " + g.genIntFit(1), "q: " + fmt.Sprint(g.r.intn(90))}
+	} else {
+		fs = []string{"a: " + g.genIntFit(1), "b: " + pick(g.r, []string{"true", "false", g.genBool(1)}),
+			fmt.Sprintf("s: %q", pick(g.r, []string{"a", "neo", "zz9", "k"})),
+			fmt.Sprintf("xs: []int{%d: %d, %d}", 1+g.r.intn(2), g.r.intn(50), g.r.intn(50)),
+			fmt.Sprintf("in: T{q: %d}", g.r.intn(90))}
+	}
+	for i := len(fs) - 1; i > 0; i-- {
+		j := g.r.intn(i + 1)
+		fs[i], fs[j] = fs[j], fs[i]
+	}
+	return strings.Join(fs[:g.r.intn(len(fs)+1)], ", ")
+}
+
+// keyedLitStmt: composite literals with explicit keys — array and slice literals whose elements carry indexes out of
+// order, with gaps (zero-filled) and unkeyed elements that continue from the previous index, constant-expression
+// keys; the length is the largest index + 1 over all elements. Map literals with constant keys in any order, struct
+// literals with a subset of the fields in any order, nested literals with elided types. Everything is consumed: len,
+// every position (the gaps too), the last position, sums by range, struct fields.
+func (g *c14Gen) keyedLitStmt() {
+	var acc *c14Var
+	for _, a := range g.vars("int", true) {
+		if !a.glob {
+			acc = a
+		}
+	}
+	if acc == nil {
+		return
+	}
+	g.tag("keyed-literal")
+	g.noFault++
+	defer func() { g.noFault-- }()
+	A := acc.name
+	g.nvar++
+	x := fmt.Sprintf("kx%d", g.nvar)
+	mix := func(e string) { g.emitf("%s = (%s*31 + %s) %% %d", A, A, e, c14M) }
+	g.emitf("{")
+	g.indent++
+	defer func() {
+		g.indent--
+		g.emitf("}")
+	}()
+	// how an element of the given kind is written and how it is read
+	elem := func(kind string) string {
+		switch kind {
+		case "int":
+			if g.r.bool() {
+				return fmt.Sprint(1 + g.r.intn(900))
+			}
+			return g.genIntFit(1)
+		case "byte":
+			return fmt.Sprint(1 + g.r.intn(255))
+		case "bool":
+			return pick(g.r, []string{"true", "true", g.genBool(1)})
+		case "string":
+			return fmt.Sprintf("%q", pick(g.r, []string{"a", "neo", "hello", "zz9", "k", "go!"}))
+		case "S":
+			return "{" + g.keyedFields("S") + "}"
+		case "T":
+			return "{" + g.keyedFields("T") + "}"
+		default: // []int, itself keyed
+			ks, _, _ := g.keyedLayout(4)
+			vs := make([]string, len(ks))
+			for i := range vs {
+				vs[i] = fmt.Sprint(1 + g.r.intn(90))
+			}
+			return "{" + c14JoinKeyed(ks, vs) + "}"
+		}
+	}
+	read := func(kind, e string) {
+		switch kind {
+		case "int":
+			mix(e + "%1000003")
+		case "byte":
+			mix("int(" + e + ")")
+		case "bool":
+			g.emitf("if %s {", e)
+			g.emitf("\t%s = (%s*2 + 1) %% %d", A, A, c14M)
+			g.emitf("} else {")
+			g.emitf("\t%s = (%s * 2) %% %d", A, A, c14M)
+			g.emitf("}")
+		case "string":
+			mix("len(" + e + ")")
+			g.emitf("if %s == %q {", e, pick(g.r, []string{"", "a", "neo", "zz9"}))
+			g.emitf("\t%s++", A)
+			g.emitf("}")
+		case "S":
+			mix(fmt.Sprintf("%s.a%%1000003 + len(%s.s)*3 + len(%s.xs)*5 + %s.in.q*7 + %s.in.p", e, e, e, e, e))
+			g.emitf("if %s.b {", e)
+			g.emitf("\t%s++", A)
+			g.emitf("}")
+			g.emitf("for _, w := range %s.xs {", e)
+			g.emitf("\t%s = (%s + w) %% %d", A, A, c14M)
+			g.emitf("}")
+		case "T":
+			mix(fmt.Sprintf("%s.p%%1000003 + %s.q*3", e, e))
+		default:
+			mix("len(" + e + ")")
+			g.emitf("for j, w := range %s {", e)
+			g.emitf("\t%s = (%s + w*(j+1)) %% %d", A, A, c14M)
+			g.emitf("}")
+		}
+	}
+	goType := func(kind string) string {
+		if kind == "nested" {
+			return "[]int"
+		}
+		return kind
+	}
+	switch g.r.intn(10) {
+	default: // arrays and slices
+		kind := pick(g.r, []string{"int", "int", "int", "byte", "byte", "bool", "string", "S", "T", "nested"})
+		keys, _, n := g.keyedLayout(3 + g.r.intn(7))
+		vals := make([]string, len(keys))
+		for i := range vals {
+			vals[i] = elem(kind)
+		}
+		body := c14JoinKeyed(keys, vals)
+		switch g.r.intn(4) {
+		case 0:
+			g.tag("keyed-array")
+			g.emitf("%s := [%d]%s{%s}", x, n+g.r.intn(3), goType(kind), body)
+		case 1:
+			g.tag("keyed-array")
+			g.emitf("%s := [...]%s{%s}", x, goType(kind), body)
+		default:
+			g.tag("keyed-slice")
+			g.emitf("%s := []%s{%s}", x, goType(kind), body)
+		}
+		g.tag("keyed-" + kind)
+		mix("len(" + x + ")")
+		switch g.r.intn(3) {
+		case 0: // every position by a constant index, the gaps too
+			g.emitf("if len(%s) == %d {", x, n) // (an array may be longer: then the loop below covers the tail)
+			g.indent++
+			for i := 0; i < n; i++ {
+				read(kind, fmt.Sprintf("%s[%d]", x, i))
+			}
+			g.indent--
+			g.emitf("}")
+			g.emitf("for i := %d; i < len(%s); i++ {", n, x)
+			g.indent++
+			read(kind, x+"[i]")
+			g.indent--
+			g.emitf("}")
+		case 1:
+			g.emitf("for i := 0; i < len(%s); i++ {", x)
+			g.indent++
+			mix("i")
+			read(kind, x+"[i]")
+			g.indent--
+			g.emitf("}")
+		default:
+			g.emitf("for i, v := range %s {", x)
+			g.indent++
+			mix("i")
+			read(kind, "v")
+			g.indent--
+			g.emitf("}")
+		}
+		read(kind, fmt.Sprintf("%s[len(%s)-1]", x, x))
+	case 0, 1: // map literal: constant keys in any order
+		g.tag("keyed-map")
+		str := g.r.bool()
+		n := 2 + g.r.intn(4)
+		var ks []string
+		if str {
+			ks = []string{`"a"`, `"neo"`, `"zz9"`, `"k"`, `""`, `"go!"`}
+		} else {
+			ks = []string{"5", "2", "K3", "KN", "0", "KN + 4", "-1", "K1"}
+		}
+		for i := len(ks) - 1; i > 0; i-- {
+			j := g.r.intn(i + 1)
+			ks[i], ks[j] = ks[j], ks[i]
+		}
+		ks = ks[:min(n, len(ks))]
+		var es []string
+		for _, k := range ks {
+			es = append(es, k+": "+elem("int"))
+		}
+		if str {
+			g.emitf("%s := map[string]int{%s}", x, strings.Join(es, ", "))
+		} else {
+			g.emitf("%s := map[int]int{%s}", x, strings.Join(es, ", "))
+		}
+		mix("len(" + x + ")")
+		for i := len(ks) - 1; i >= 0; i-- { // the keys that are there (an absent key is finding F145)
+			mix(fmt.Sprintf("%s[%s]%%1000003", x, ks[i]))
+		}
+	case 2: // struct literal: a subset of the fields, any order; also through a pointer
+		g.tag("keyed-struct")
+		if g.r.bool() {
+			g.emitf("%s := S{%s}", x, g.keyedFields("S"))
+		} else {
+			g.emitf("%s := &S{%s}", x, g.keyedFields("S"))
+		}
+		read("S", x)
 	}
 }
 
@@ -1845,6 +2136,15 @@ type S struct {
 	xs []int
 	in T
 }
+
+// constants for the keys of composite literals
+const (
+	K0 = iota
+	K1
+	K2
+	K3
+)
+const KN = 6
 `
 
 // c14GenUnit generates one program.
@@ -2319,6 +2619,10 @@ func c14Generate(co *caseOut, cf *commonFlags, work string) error {
 		}
 	}
 	co.extra["x_features"] = hist
+	// programs the Go type checker rejects (and accepted twins of them)
+	if err := c14RejectGenerate(co, cf, r, work); err != nil {
+		return err
+	}
 	// MiniGo fragment
 	return c14FragGenerate(co, cf, r, work)
 }
